@@ -785,10 +785,13 @@ def via_class(ctx: Ctx, node: Node) -> str:
             if tc is None or tc == ptype.name:
                 classes.add("same_type")
             elif is_abstract_type(ctx.schema.type_map[tc]):
-                classes.add("other_abstract")
+                # a condition on a *wider* abstract type (the position's type implements it) applies to every runtime type;
+                # a narrower / overlapping one only to some; inline fragments and named spreads take different code paths
+                wider = ctx.schema.is_sub_type(ctx.schema.type_map[tc], ptype)
+                classes.add(("wider" if wider else "other") + "_abstract_" + ("inline" if kind == "inline" else "spread"))
             else:
                 classes.add("object_type")
-    for c in ("other_abstract", "object_type", "same_type", "direct"):
+    for c in ("other_abstract_inline", "other_abstract_spread", "wider_abstract_inline", "wider_abstract_spread", "object_type", "same_type", "direct"):
         if c in classes:
             return c
     return "direct"
